@@ -114,7 +114,9 @@ class Operator:
             )
             return
 
-        for pddl_object in self.problem_objects.values():
+        # the constants of the domain are objects of every problem and are quantified over as well.
+        quantified_objects = {**self.domain.constants, **self.problem_objects}
+        for pddl_object in quantified_objects.values():
             self.logger.debug(
                 f"Trying to apply the action's universal effects on the object: {pddl_object.name}"
             )
